@@ -274,6 +274,10 @@ KEEPS = [
     m('c18-keep-rename-xyz', 'C18', 'keep', CO, [("    x2 = x1\n    y2 = y1 * cosi + z1 * sini\n    z2 = -y1 * sini + z1 * cosi\n    mu = ac.Angle(np.arctan2(y2, x2), unit=u.radian) + munu.node\n    nu = ac.Angle(np.arcsin(np.clip(z2, -1.0, 1.0)), unit=u.radian)",
                                                  "    xr = x1\n    yr = y1 * cosi + z1 * sini\n    zr = -y1 * sini + z1 * cosi\n    mu = ac.Angle(np.arctan2(yr, xr), unit=u.radian) + munu.node\n    nu = ac.Angle(np.arcsin(np.clip(zr, -1.0, 1.0)), unit=u.radian)")]),
     m('c18-keep-square', 'C18', 'keep', AS, [("    sindis = np.sqrt(np.sin(deldec2)*np.sin(deldec2) +\n                     np.cos(dcrad1)*np.cos(dcrad2)*np.sin(delra2)*np.sin(delra2))", "    sindis = np.sqrt(np.sin(deldec2)**2 +\n                     np.cos(dcrad1)*np.cos(dcrad2)*np.sin(delra2)**2)")]),
+    m('c19-keep-extract-factor-helper', 'C19', 'keep', AS, [
+        ("def airtovac(air):", "def _refraction_factor(wave):\n    sigma2 = (1.0e4/wave)**2\n    fact = (1.0 + 5.792105e-2/(238.0185 - sigma2) +\n            1.67917e-3/(57.362 - sigma2))\n    return fact\n\n\ndef airtovac(air):"),
+        ("    for k in range(2):\n        sigma2 = (1.0e4/vacuum)**2\n        fact = (1.0 + 5.792105e-2/(238.0185 - sigma2) +\n                1.67917e-3/(57.362 - sigma2))\n        vacuum = a * fact",
+         "    for k in range(2):\n        fact = _refraction_factor(vacuum)\n        vacuum = a * fact")]),
     m('c19-keep-comment', 'C19', 'keep', AS, [("    for k in range(2):\n        sigma2 = (1.0e4/vacuum)**2", "    for k in range(2):\n        # Ciddor (1996)\n        sigma2 = (1.0e4/vacuum)**2")]),
     m('c20-keep-get-default', 'C20', 'keep', S1, [("        metadata['orig_'+r] = os.environ.get(r.upper())", "        metadata['orig_'+r] = os.environ.get(r.upper(), None)")]),
     m('c20-keep-finally-helper-rename', 'C20', 'keep', S1, [("_restore_run_environment", "_put_back_run_environment")], all=True),
